@@ -49,6 +49,73 @@ def row_writers(prog: Program) -> Dict[str, ast.Assign]:
     return out
 
 
+def step_local(prog: Program, what: str) -> str:
+    """name of a local of the daily step identified by provenance, not by spelling:
+       'irr'     - the plain-name target of the irrigation(...) call (the day's surface irrigation depth)
+       'irr_day' - the row element of column IrrDay"""
+    fi = prog.func(STEP_FN)
+    if what == "irr":
+        for n in ast.walk(fi.node):
+            if isinstance(n, ast.Assign) and isinstance(n.value, ast.Call) and getattr(prog.resolve_call(fi, n.value), "name", None) == "irrigation" \
+                    and isinstance(n.targets[0], ast.Tuple):
+                names = [t.id for t in n.targets[0].elts if isinstance(t, ast.Name)]
+                if len(names) == 1:
+                    return names[0]
+        raise AnalysisError("cannot identify the step's irrigation-depth local (single plain-name target of irrigation())")
+    if what == "irr_day":
+        what = "col:IrrDay"
+    if what.startswith("col:"):
+        w = row_writers(prog)["water_flux"]
+        cols = output_columns(prog)["water_flux"]
+        e = w.value.elts[cols.index(what[4:])]
+        if isinstance(e, ast.Name):
+            return e.id
+        raise AnalysisError(f"the {what[4:]} column of the water_flux row is not a plain local")
+    if what == "state":
+        rets = [r for r in ast.walk(fi.node) if isinstance(r, ast.Return) and isinstance(r.value, ast.Tuple) and r.value.elts]
+        ids = {r.value.elts[0].id for r in rets if isinstance(r.value.elts[0], ast.Name)}
+        if len(ids) == 1:
+            return ids.pop()
+        raise AnalysisError("cannot identify the step's state local (first returned value)")
+    if what == "pre_irr":
+        for n in ast.walk(fi.node):
+            if isinstance(n, ast.Assign) and isinstance(n.value, ast.Call) and getattr(prog.resolve_call(fi, n.value), "name", None) == "pre_irrigation" \
+                    and isinstance(n.targets[0], ast.Tuple):
+                names = [t.id for t in n.targets[0].elts if isinstance(t, ast.Name) and t.id not in fi.params]
+                names = [x for x in names if not any(isinstance(a, ast.Name) and a.id == x for a in n.value.args)]
+                if len(names) == 1:
+                    return names[0]
+        raise AnalysisError("cannot identify the step's pre-irrigation local")
+    if what == "irr_net":
+        # the target of the transpiration(...) call at the position where transpiration returns the local it adds to irr_net_cum
+        tr = prog.find_func("transpiration")
+        added = set()
+        for n in ast.walk(tr.node):
+            if isinstance(n, ast.Assign) and isinstance(n.targets[0], ast.Attribute) and n.targets[0].attr == "irr_net_cum" \
+                    and isinstance(n.value, ast.BinOp) and isinstance(n.value.op, ast.Add):
+                added |= {x.id for x in (n.value.left, n.value.right) if isinstance(x, ast.Name)}
+            if isinstance(n, ast.AugAssign) and isinstance(n.target, ast.Attribute) and n.target.attr == "irr_net_cum" and isinstance(n.value, ast.Name):
+                added.add(n.value.id)
+        rets = [r for r in ast.walk(tr.node) if isinstance(r, ast.Return) and isinstance(r.value, ast.Tuple)]
+        pos = {i for r in rets for i, e in enumerate(r.value.elts) if isinstance(e, ast.Name) and e.id in added}
+        for n in ast.walk(fi.node):
+            if isinstance(n, ast.Assign) and isinstance(n.value, ast.Call) and getattr(prog.resolve_call(fi, n.value), "key", None) == tr.key \
+                    and isinstance(n.targets[0], ast.Tuple) and len(pos) == 1:
+                t = n.targets[0].elts[next(iter(pos))]
+                if isinstance(t, ast.Name):
+                    return t.id
+        raise AnalysisError("cannot identify the step's net-irrigation local (transpiration() result added to irr_net_cum)")
+    if what == "irr_tot":
+        for n in ast.walk(fi.node):
+            if isinstance(n, ast.Assign) and len(n.targets) == 1 and isinstance(n.targets[0], ast.Subscript) \
+                    and isinstance(n.value, ast.List) and any(isinstance(x, ast.Attribute) and x.attr == "final_stats" for x in ast.walk(n.targets[0])):
+                e = n.value.elts[7] if len(n.value.elts) > 7 else None
+                if isinstance(e, ast.Name):
+                    return e.id
+        raise AnalysisError("the seasonal-irrigation element of the final_stats row is not a plain local")
+    raise AnalysisError(what)
+
+
 class StepCP:
     def __init__(self, prog: Program, config: Optional[Dict[str, object]] = None, split=("growing_season",)):
         """config: 'param_struct.water_table' -> value ; 'IrrMngt.irrigation_method' -> value (applied to both the
